@@ -406,7 +406,7 @@ class RunNormalizer(CallbackBase):
             if name in doc["data"].keys():
                 doc["data"][f"_{name}"] = doc["data"].pop(name)
                 doc["timestamps"][f"_{name}"] = doc["timestamps"].pop(name)
-            if name in doc["filled"].keys():
+            if name in doc.get("filled", {}).keys():  # 'filled' is optional in the Event schema
                 doc["filled"][f"_{name}"] = doc["filled"].pop(name)
 
         # Part 1. ----- Internal Data -----
@@ -439,7 +439,7 @@ class RunNormalizer(CallbackBase):
                 self._ext_ref_cache.append(missing)
 
     def resource(self, doc: Resource):
-        doc = copy.copy(doc)
+        doc = copy.deepcopy(doc)  # nested dictionaries are modified during the conversion
         if patch := self.patches.get("resource"):
             doc = patch(doc)
 
@@ -447,7 +447,7 @@ class RunNormalizer(CallbackBase):
         self._sres_cache[doc["uid"]] = self._convert_resource_to_stream_resource(doc)
 
     def stream_resource(self, doc: StreamResource):
-        doc = copy.copy(doc)
+        doc = copy.deepcopy(doc)  # nested dictionaries are modified during the conversion
         if patch := self.patches.get("stream_resource"):
             doc = patch(doc)
 
@@ -462,7 +462,7 @@ class RunNormalizer(CallbackBase):
         self.emit(DocumentNames.stream_datum, doc)
 
     def datum(self, doc: Datum):
-        doc = copy.copy(doc)
+        doc = copy.deepcopy(doc)  # nested dictionaries are modified during the conversion
         if patch := self.patches.get("datum"):
             doc = patch(doc)
 
